@@ -20,7 +20,7 @@
 From Coq Require Import ZArith List Bool Sorted.
 From Geo Require Import Base.GoPrim Gen.CellID Model.CellUnion.
 From Geo Require Import Proofs.C11_Bits Proofs.C11_Cells Proofs.C11_Normalize Proofs.C11_Unique Proofs.C11_Search
-  Proofs.C11_SetOps Proofs.C11_Range.
+  Proofs.C11_SetOps Proofs.C11_Range Proofs.C11_Checks Proofs.C11_Examples.
 Import ListNotations.
 Local Open Scope Z_scope.
 
@@ -163,3 +163,43 @@ Theorem normal_form_is_shortest : forall N cu, normal N -> Forall valid cu ->
   (forall x, leaf x -> (cov cu x <-> cov N x)) -> (length N <= length cu)%nat.
 Proof. exact normal_shortest. Qed.
 Print Assumptions normal_form_is_shortest.
+
+(** * The library's own checks decide the predicates used above --------------- *)
+Theorem isvalid_decides_sorted_disjoint : forall l, Forall u64 l -> (cu_IsValid l = true <-> sorted_cu l).
+Proof. exact isvalid_spec. Qed.
+Print Assumptions isvalid_decides_sorted_disjoint.
+
+Theorem isnormalized_decides_normal : forall l, Forall u64 l -> (cu_IsNormalized l = true <-> normal l).
+Proof. exact isnormalized_spec. Qed.
+Print Assumptions isnormalized_decides_normal.
+
+Theorem normalize_passes_IsNormalized : forall cu, Forall valid cu -> cu_IsNormalized (cu_Normalize cu) = true.
+Proof. exact C11_Checks.normalize_passes_IsNormalized. Qed.
+Print Assumptions normalize_passes_IsNormalized.
+
+(** * Not yet proved in Coq (checked on every run by search [S] with the independent
+      leaf-interval oracle of harness/cmd/obs/c11, and by correspondence [T] where a model exists).
+
+  TODO denormalize_leaves (model cu_Denormalize exists; missing: induction over iter_next /
+       ChildBeginAtLevel..ChildEndAtLevel, 4^(newLevel-level) consecutive descendants tile the cell):
+    forall cu minLevel levelMod, normal cu -> 0 <= minLevel <= 30 -> 1 <= levelMod <= 3 ->
+      forall x, leaf x -> (cov (cu_Denormalize cu minLevel levelMod) x <-> cov cu x)
+      /\ Forall (fun c => minLevel <= s2_CellID_Level c /\
+                 ((s2_CellID_Level c - minLevel) mod levelMod = 0 \/ s2_CellID_Level c = 30))
+                (cu_Denormalize cu minLevel levelMod).
+
+  TODO intersection_with_cellid_leaves (model cu_FromIntersectionWithCellID exists; missing: lowerBound
+       scan + take_upto select exactly the cells of x nested in id, when no cell of x contains id):
+    forall x id, normal x -> valid id -> normal (cu_FromIntersectionWithCellID x id) /\
+      forall t, leaf t -> (cov (cu_FromIntersectionWithCellID x id) t <-> cov x t /\ covers id t).
+
+  TODO cell_index_spec (no Coq model; s2/cell_index.go Build + CellIndexRangeIterator +
+       CellIndexContentsIterator + non-empty iteration):
+    after Build, the range nodes partition [first leaf, sentinel); for every leaf x, the contents
+    iterator started on x's range enumerates exactly {(c,label) added | covers c x}; the non-empty
+    iterator skips exactly the ranges with no contents; StartUnion reports each (cell,label) once
+    over an increasing sweep.
+
+  TODO find_spec (no Coq model; s2/s2intersect/s2intersect.go Find):
+    for normalized unions cus, Find cus returns for each index set S with |S| >= 2 that occurs exactly
+    the leaves covered by precisely the unions in S, as a normalized union; nothing else. *)
